@@ -233,7 +233,19 @@ pub fn run_case(case: &Case, opts: &Opts) -> (Vec<Finding>, Stats) {
                 match exact {
                     Err(p) => fs.push(panic_finding("read_relation", &p)),
                     Ok(Err(e)) => {
-                        let msg = normalise(&e.to_string());
+                        // does the reader want one more varint after the program?
+                        let mut plus = w1.clone();
+                        plus.push(0);
+                        let wants_more = matches!(
+                            catch_any(|| {
+                                let mut c = Cursor::new(plus.clone());
+                                ZkirRelation::read_relation(&mut c).map(|_| c.position())
+                            }),
+                            Ok(Ok(pos)) if pos == w1.len() as u64 + 1
+                        );
+                        let kind_word = e.to_string();
+                        let kind_word = ["UnexpectedEof", "UnexpectedEnd", "InvalidData"].iter().find(|w| kind_word.contains(**w)).map(|w| w.to_string());
+                        let msg = if wants_more { "tuple-decode".to_string() } else { kind_word.unwrap_or_else(|| normalise(&e.to_string())) };
                         fs.push(Finding {
                             class: "D|read_relation-fails".into(),
                             kind: "read_relation-fails".into(),
@@ -339,7 +351,7 @@ pub fn run_case(case: &Case, opts: &Opts) -> (Vec<Finding>, Stats) {
         }
         Ok(Err(e)) => {
             st.circuit = "synthesis-error";
-            if !matches!(exp, Outcome::Ill { .. }) {
+            if !matches!(exp, Outcome::Ill { stat: true, .. }) {
                 fs.push(finding(
                     "circuit-rejects-well-typed-program",
                     format!("circuit synthesis refuses a program the documentation makes well-typed: {e}"),
@@ -348,7 +360,16 @@ pub fn run_case(case: &Case, opts: &Opts) -> (Vec<Finding>, Stats) {
             }
             false
         }
-        Ok(Ok(())) => true,
+        Ok(Ok(())) => {
+            if let Outcome::Ill { stat: true, at, why, .. } = &exp {
+                fs.push(finding(
+                    "circuit-accepts-illformed",
+                    format!("circuit synthesis accepts an ill-formed program (instruction #{at}: {why})"),
+                    json!({ "at": at, "why": why }),
+                ));
+            }
+            true
+        }
     };
     if !structure_ok {
         if let Some(Ok(_)) = &off {
@@ -639,24 +660,39 @@ pub fn signature(f: &Finding, min: &Case) -> String {
     }
     let (exp, mem) = reference(&min.prog, &min.wit);
     let is_lp = |o: &Operation| matches!(o, Operation::Load(_) | Operation::Publish);
-    let at = exp
-        .at()
-        .or_else(|| (0..min.prog.len()).rev().find(|i| !is_lp(&min.prog[*i].operation)))
-        .unwrap_or(min.prog.len().saturating_sub(1));
+    let last_non_lp = (0..min.prog.len()).rev().find(|i| !is_lp(&min.prog[*i].operation));
+    let with_const = (0..min.prog.len()).rev().find(|i| min.prog[*i].inputs.iter().any(|n| !mem.contains_key(n) && parse_const(n).is_some()));
+    let last = min.prog.len().saturating_sub(1);
+    let file = f.file.clone().unwrap_or_default();
+    let at = if f.kind == "panic" {
+        // the operation whose source file panicked, else the last computing instruction, else a
+        // constant-bearing one, else what the reference blames
+        let by_file = (0..min.prog.len()).rev().find(|i| file == format!("zkir/src/instructions/operations/{}.rs", op_name(&min.prog[*i].operation)));
+        by_file.or(last_non_lp).or(with_const).or(exp.at()).unwrap_or(last)
+    } else {
+        exp.at().or(last_non_lp).or(with_const).unwrap_or(last)
+    };
     let Some(ins) = min.prog.get(at) else {
         return format!("C18/program/{}", f.kind);
     };
     let in_vals: Vec<Option<Val>> = ins.inputs.iter().map(|n| mem.get(n).cloned().or_else(|| parse_const(n))).collect();
-    let any_const = ins.inputs.iter().any(|n| !mem.contains_key(n));
-    let all_const = !ins.inputs.is_empty() && ins.inputs.iter().all(|n| !mem.contains_key(n));
-    let sub = if matches!(ins.operation, Operation::Publish) && any_const || all_const && f.kind == "panic" {
+    let (tenv, _) = static_check(&min.prog);
+    let in_tys: Vec<Option<IrType>> = ins.inputs.iter().map(|n| tenv.get(n).copied().or_else(|| parse_const(n).map(|v| v.ty()))).collect();
+    let is_const = |n: &String| !mem.contains_key(n) && !tenv.contains_key(n);
+    let any_const = ins.inputs.iter().any(is_const);
+    let all_const = !ins.inputs.is_empty() && ins.inputs.iter().all(is_const);
+    let mut sub = if (matches!(ins.operation, Operation::Publish) && any_const) || (all_const && f.kind == "panic" && !file.starts_with("zkir/src/instructions")) {
         "constant"
     } else {
         op_name(&ins.operation)
     };
+    if f.kind == "panic" && matches!(ins.operation, Operation::AssertNotEqual) && matches!(in_tys.first(), Some(Some(IrType::Bytes(_)))) {
+        // assert_not_equal on byte arrays is is_equal + assert (assert_not_equal.rs)
+        sub = "is_equal";
+    }
     let types: Vec<&str> = match &ins.operation {
         Operation::Load(t) => vec![ty_name(t)],
-        _ => in_vals.iter().map(|v| v.as_ref().map(|v| ty_name(&v.ty())).unwrap_or("?")).collect(),
+        _ => in_tys.iter().map(|t| t.as_ref().map(ty_name).unwrap_or("?")).collect(),
     };
     // collapse repeated types (variadic operations)
     let mut tys: Vec<&str> = vec![];
@@ -665,19 +701,31 @@ pub fn signature(f: &Finding, min: &Case) -> String {
             tys.push(t);
         }
     }
-    if f.kind == "panic" {
-        let file = f.file.clone().unwrap_or_default();
-        let raw = f.detail.get("message").and_then(|m| m.as_str()).unwrap_or("");
-        let shape = PANIC_SHAPES
-            .iter()
-            .find(|(fs, frag, _)| file.ends_with(fs) && raw.contains(frag))
-            .map(|s| s.2.to_string())
-            .unwrap_or_else(|| f.msg.clone());
-        return format!("C18/{sub}/panic@{file} {shape}");
+    let mut pc = param_class(&ins.operation, &in_vals);
+    if matches!(ins.operation, Operation::IsEqual | Operation::AssertEqual | Operation::AssertNotEqual | Operation::Sha256 | Operation::Sha512)
+        && in_tys.iter().any(|t| matches!(t, Some(IrType::Bytes(0))))
+    {
+        pc = " Bytes(0)".into();
     }
-    let file = match sub {
+    let op_file = match sub {
         "constant" => "zkir/src/utils/constants.rs".to_string(),
         s => format!("zkir/src/instructions/operations/{s}.rs"),
     };
-    format!("C18/{sub}/{}@{file} {}{}", f.kind, tys.join(","), param_class(&ins.operation, &in_vals))
+    if f.kind == "panic" {
+        let raw = f.detail.get("message").and_then(|m| m.as_str()).unwrap_or("");
+        let stage = f.detail.get("stage").and_then(|m| m.as_str()).unwrap_or("");
+        if file == "proofs/src/dev/cost_model.rs" && raw.contains("Synthesis(") {
+            // MidnightCircuit::from_relation / min_k unwrap the synthesis result
+            let api = if stage == "public_inputs" { "public_inputs" } else { "min_k" };
+            return format!("C18/{api}/panic@{file} synthesis-error-unwrapped");
+        }
+        let table = PANIC_SHAPES.iter().find(|(fs, frag, _)| file.ends_with(fs) && raw.contains(frag)).map(|s| s.2.to_string());
+        // panics raised inside third-party crates are attributed to the zkir file of the operation
+        let file = if file.starts_with('/') || file == "?" { op_file } else { file };
+        return match table {
+            Some(shape) => format!("C18/{sub}/panic@{file} {shape}"),
+            None => format!("C18/{sub}/panic@{file} {}{}", f.msg, pc),
+        };
+    }
+    format!("C18/{sub}/{}@{op_file} {}{}", f.kind, tys.join(","), pc)
 }
